@@ -432,7 +432,7 @@ def run_c13(cfg: GCfg, c: Ctx) -> Any:
     if k:
         d.config_from_dict({"nodes": {labels[k - 1]: {"priority": 3}}})
         c.cover("w_reconfigured")
-    modes = ["call"] + [(k, l) for k in ("target", "exclude", "root", "deps_of") for l in labels] + (["setup"] if setup0 else [])
+    modes = ["call"] + [(k, l) for k in ("target", "exclude", "root", "deps_of") for l in labels] + (["setup", "setup+call"] if setup0 else [])
     if cfg.combined:
         modes += [(k, a, b) for k in ("root+target", "root+exclude") for a in labels for b in labels if a != b]
     mode = modes[c.choose(len(modes), "mode")]
@@ -448,6 +448,13 @@ def run_c13(cfg: GCfg, c: Ctx) -> Any:
         elif mode == "setup":
             d.setup()
             sel_all = {labels[0]}
+        elif mode == "setup+call":
+            # an explicit setup phase, then a whole-DAG call: the call runs everything but the node that is already set up
+            d.setup()
+            cnt.reset()
+            out = d()
+            sel_all = set(labels)
+            c.cover("w_setup_then_call")
         elif len(mode) == 3:
             kind, a, b = mode
             c.assume(not alldeps[a])  # a is a root
@@ -491,10 +498,12 @@ def run_c13(cfg: GCfg, c: Ctx) -> Any:
         else:
             ref[l] = None
             nondebug_expected.discard(l)
+    if mode == "setup+call":
+        nondebug_expected.discard(labels[0])  # (ran during the setup phase, before the counters were reset)
     if not run_dbg:
         c.check(not (entered & dbg), "debug nodes %s executed although RUN_DEBUG_NODES is off" % sorted(entered & dbg), prop="C13", data=data)
     else:
-        if mode == "call":
+        if mode in ("call", "setup+call"):
             for l in sorted(dbg):
                 want_n = 1
                 if l in act:  # a flagged debug node runs iff its flag (the actual value of the flag node) is truthy
